@@ -1,7 +1,7 @@
 (* C01 — Overlapping search reports every occurrence of every pattern exactly once.
    Pinned statements only; proofs in Proofs/GenAC.v, Proofs/BwCert.v, Theory/SpecAdequacy.v. *)
 From DV Require Import Model.Base Model.Nfa Model.BwBuild Model.BwSearch Model.Api Model.Spec
-     Model.Cert Proofs.BwCert Theory.SpecAdequacy Model.Utf8 Model.CwBuild Proofs.Utf8Props Proofs.CwCert.
+     Model.Cert Proofs.BwCert Theory.SpecAdequacy Model.Utf8 Model.CwBuild Proofs.Utf8Props Proofs.CwCert Proofs.TrieInv Proofs.BuildCert Proofs.BuiltAutomata.
 From Coq Require Import Sorted.
 Local Open Scope N_scope.
 
@@ -15,6 +15,35 @@ Theorem bw_overlapping_correct :
     bw_find_overlapping_iter V A h = Ok (spec_overlapping V pvs h).
 Proof. intros V veqb Hv A pvs C h Hb. exact (bw_overlapping_correct_lemma V veqb Hv A pvs C h Hb). Qed.
 Print Assumptions bw_overlapping_correct.
+
+(* THE BUILDER THEOREM (byte-wise, standard kind).  EVERY automaton that construction returns -- any
+   byte patterns of total length below 2^30, any values with a boolean equality, any
+   num_free_blocks -- passes the certificate checker for the registered patterns.  Proof chain:
+   trie invariant of add (TrieInv) -> breadth-first fail links = longest proper suffix node and
+   output chains = suffix patterns (NfaFails) -> the double array is an isomorphic copy of the NFA:
+   injective state map, bases unique, every vacant slot of every block sealed by
+   remove_invalid_checks, pigeon-hole for full blocks (DaRefine, HelperFlags) -> every check of the
+   certificate succeeds (BuildCert). *)
+Theorem bw_built_automaton_is_certified :
+  forall (V : Type) (veqb : V -> V -> bool), (forall a b, veqb a b = true <-> a = b) ->
+  forall nfb (pvs : list (list N * V)) (A : bw_automaton V),
+    (forall p v, In (p, v) pvs -> Forall (fun b => b < 256) p) -> 4 * total_len V pvs <= U32_MAX - 1 ->
+    bw_build_with_values V Standard nfb pvs = Ok A ->
+    bw_cert_ok veqb A pvs = true.
+Proof. exact built_cert. Qed.
+Print Assumptions bw_built_automaton_is_certified.
+
+(* C01 for the byte-wise variant with NO certificate hypothesis: on every built automaton and every
+   haystack the overlapping search returns exactly the specification. *)
+Theorem bw_overlapping_correct_for_every_built_automaton :
+  forall (V : Type) (veqb : V -> V -> bool), (forall a b, veqb a b = true <-> a = b) ->
+  forall nfb (pvs : list (list N * V)) (A : bw_automaton V),
+    (forall p v, In (p, v) pvs -> Forall (fun b => b < 256) p) -> 4 * total_len V pvs <= U32_MAX - 1 ->
+    bw_build_with_values V Standard nfb pvs = Ok A ->
+  forall h : list N, Forall (fun b => b < 256) h ->
+    bw_find_overlapping_iter V A h = Ok (spec_overlapping V pvs h).
+Proof. exact built_overlapping. Qed.
+Print Assumptions bw_overlapping_correct_for_every_built_automaton.
 
 (* Adequacy of the executable specification: it contains exactly the triples (start, end, value)
    with haystack[start..end] a registered pattern carrying that value ... *)
